@@ -101,6 +101,10 @@ def run(cmd, a, out, suffix):
         from whatshap.cli.split import run_split
 
         run_split(a["bam"], a["list"], output_h1=p("h1.bam"), output_h2=p("h2.bam"), output_untagged=p("un.bam"), read_lengths_histogram=p("hist.tsv"))
+    elif cmd == "find_snv":
+        from whatshap.cli.find_snv_candidates import run_find_snv_candidates
+
+        run_find_snv_candidates(a["fasta"], a["bam"], output=p("out.vcf"), **a.get("kw", {}))
     elif cmd == "unphase":
         from whatshap.cli.unphase import run_unphase
 
